@@ -335,8 +335,15 @@ def trace_dict(tracer):
 
 # ------------------------------------------------------------------ channel A
 def reference_trace(c, cls):
-    """the same simulator class stepped with the default tracer (every named wire)"""
-    sim, tracer = make_sim(c, cls, track='named')
+    """the same simulator class stepped with a tracer on every named wire (the default set) plus whatever
+    the explicit list mentions (e.g. an Output called t', which the default tracer takes for internal)"""
+    names = {w.name for w in c.block.wirevector_set
+             if not isinstance(w, pyrtl.Const) and not w.name.startswith(('tmp', 'const_'))
+             and not w.name.endswith("'")} | set(c.partial)
+    tracer = pyrtl.SimulationTrace(wires_to_track=[c.block.wirevector_by_name[nm] for nm in sorted(names)],
+                                   block=c.block)
+    sim = getattr(pyrtl, cls)(tracer=tracer, register_value_map=dict(c.regmap),
+                              memory_value_map={m: dict(v) for m, v in c.memmap.items()}, block=c.block)
     for ins in c.inputs:
         sim.step(dict(ins))
     return trace_dict(tracer)
@@ -1165,9 +1172,9 @@ def guarded(ctx, what, rep, exprs, meta, fn, *args):
 # ------------------------------------------------------------------ main
 def run(ctx):
     _SIG_COUNT.clear()
-    ndesigns = 36 if ctx.tier == 'quick' else 450
-    nassert = 30 if ctx.tier == 'quick' else 300
-    nio = 20 if ctx.tier == 'quick' else 300
+    ndesigns = 36 if ctx.tier == 'quick' else 300
+    nassert = 30 if ctx.tier == 'quick' else 200
+    nio = 20 if ctx.tier == 'quick' else 150
     # ---- T14 gate
     probs = genfrag_C15.step_multiple_identity(REPO)
     for p in probs:
